@@ -6,7 +6,7 @@ from hexlib import rlp, keccak, _nib, _hp, yp_c, yp_n
 from trie.exceptions import TraversedPartialPath
 
 ID = "C08"
-LEAN_IMPORTS = ["PyTrie.Props.C08", "PyTrie.Props.Histories", "PyTrie.Props.RawLevel"]
+LEAN_IMPORTS = ["PyTrie.Props.C08", "PyTrie.Props.Histories", "PyTrie.Props.RawLevel", "PyTrie.Props.C09"]
 THEOREMS = [
     "PyTrie.Props.C08.traverse_nil",
     "PyTrie.Props.C08.traverse_blank_iff",
@@ -22,6 +22,7 @@ THEOREMS = [
     "PyTrie.Props.Raw.annotate_refines",
     "PyTrie.HexD.traverseOutD_refines",
     "PyTrie.HexD.simulateD_toD",
+    "PyTrie.Props.C09.old_version_read_truthful",
 ]
 RULE = ("tries built by generated histories (embedded and hashed nodes, values on branches, keys that prefix other keys); "
         "for nibble paths along every key, off every key at every depth and up to two nibbles beyond the longest key: "
